@@ -21,7 +21,11 @@ theorem area_sum (N M : Nat) (hN : 0 < N) (hM : 0 < M) (f : Nat → Rat) :
     sumRange M (fun j => areaResample1 N M f j * ((N : Rat) / (M : Rat))) = sumRange N f :=
   areaResample1_sum N M hN hM f
 
-/-- `Resize(..., conservative)` in 2-D conserves the array sum for every input and target shape. -/
+/-- The MODEL of `Resize(..., conservative)` (separable area resampling × ratio of pixel counts) conserves the array sum for
+every input and target shape.  `cv2.resize(INTER_AREA)` realises this model only inside the property's quantifier —
+both target extents not larger (pure shrinking) or both integer multiples (pure enlargement); for MIXED targets (one axis
+shrunk by more than 2 while the other is enlarged) OpenCV switches to a 2-tap kernel and is not conservative
+(3×5 → 6×3: sum 1240 → 1223).  The check sends only targets inside the quantifier. -/
 theorem conservative_resize_sum (n1 n2 m1 m2 : Nat) (hn1 : 0 < n1) (hn2 : 0 < n2) (hm1 : 0 < m1) (hm2 : 0 < m2)
     (f : Nat → Nat → Rat) :
     sumRange m1 (fun j1 => sumRange m2 fun j2 => conservativeResize2 n1 n2 m1 m2 f j1 j2)
@@ -159,6 +163,109 @@ theorem superpose_aligned (canvas : List Nat) (imgs : List Placed)
     rw [e, sumBox_add, List.map_cons, sumList, ih (fun q hq => h q (List.mem_cons_of_mem p hq))]
     congr 1
     exact shiftAt_sum canvas p.offset p.shape (h p List.mem_cons_self) p.val
+
+/-! ### multi-level coarsening exactly as coded (the code uses the ORIGINAL axis length at every level)
+
+Characterisation (per axis, `levels = L ≥ 1`, original extent `n`): `uniform_refinement(img, -L)` conserves the integral of
+every image iff `2^L ∣ n`.  Proved: the "if" direction for all `n`, `L` (`coarsen_coded_pow2_conservative`: the code then
+performs exactly the ideal pairwise averaging, no exception), and the "only if" direction for the first level in general
+(`coarsen_coded_odd_first_level`: any odd `n`, constant data) and for the deeper failure modes by witnesses
+(`coarsen_coded_failure_modes`: silently wrong broadcast at current extent 3, `ValueError` at current extents 5 and 1).
+The full "only if" for arbitrary `n`, `L` is not proved (partial); the oracle checks it exhaustively for `n ≤ 64`, `L ≤ 3`. -/
+
+theorem coarsen_coded_pow2_conservative (D : Rat) (n l : Nat) (hn : 0 < n) (h : 2 ^ l ∣ n) (g : Nat → Rat) :
+    ∃ m g', coarsenCodedLevels n l n g = .ok (m, g') ∧ m * 2 ^ l = n ∧
+      D / (m : Rat) * sumRange m g' = D / (n : Rat) * sumRange n g := by
+  obtain ⟨h1, h2⟩ := coarsenIdeal_sum l n g h
+  refine ⟨(coarsenIdeal l n g).1, (coarsenIdeal l n g).2, coarsenCodedLevels_pow2 n l n g h (Nat.le_refl n), h1, ?_⟩
+  have hm : 0 < (coarsenIdeal l n g).1 := by
+    rcases Nat.eq_zero_or_pos (coarsenIdeal l n g).1 with e | e
+    · rw [e] at h1; omega
+    · exact e
+  have hmq : ((coarsenIdeal l n g).1 : Rat) ≠ 0 := by positivity
+  have hnq : (n : Rat) ≠ 0 := by positivity
+  have hp : ((2 : Rat) ^ l) ≠ 0 := by positivity
+  have hc : (n : Rat) = ((coarsenIdeal l n g).1 : Rat) * 2 ^ l := by exact_mod_cast h1.symm
+  rw [← h2, hc]; field_simp
+
+theorem coarsen_coded_odd_first_level (D : Rat) (hD : D ≠ 0) (m : Nat) :
+    ∃ g', coarsenCodedLevels (2 * m + 1) 1 (2 * m + 1) (fun _ => 1) = .ok (m + 1, g') ∧
+      D / ((m + 1 : Nat) : Rat) * sumRange (m + 1) g' ≠ D / ((2 * m + 1 : Nat) : Rat) * sumRange (2 * m + 1) (fun _ => 1) := by
+  have hh : halfUp (2 * m + 1) = m + 1 := by unfold halfUp; omega
+  have hl : min ((2 * m + 1) / 2) (halfUp (2 * m + 1)) = m := by rw [hh]; omega
+  have hs : (2 * m + 1) / 2 = m := by omega
+  refine ⟨fun j => (1 : Rat) / 2 + (if j < m then (1 : Rat) / 2 else 0), ?_, ?_⟩
+  · have hmin : min m (m + 1) = m := by omega
+    simp only [coarsenCodedLevels, coarsenCoded1, hs, hh, hmin, if_true]
+  · rw [coarsen_odd_const_sum, sumRange_const]
+    have h1 : (((m + 1 : Nat)) : Rat) ≠ 0 := by positivity
+    have h2 : (((2 * m + 1 : Nat)) : Rat) ≠ 0 := by positivity
+    intro e
+    field_simp at e
+    push_cast at e
+    nlinarith [e, hD]
+
+theorem coarsen_coded_failure_modes :
+    -- current extent 3 at the second level (n = 6): a single entry is broadcast, the result is silently not conservative
+    (∃ g', coarsenCodedLevels 6 2 6 (fun i => ((i * i : Nat) : Rat)) = .ok (2, g') ∧
+        (3 : Rat) / 2 * sumRange 2 g' ≠ 3 / 6 * sumRange 6 (fun i => ((i * i : Nat) : Rat))) ∧
+    -- current extent 5 (n = 10) and current extent 1 (n = 2): ValueError
+    coarsenCodedLevels 10 2 10 (fun _ => 1) = .error .value ∧
+    coarsenCodedLevels 2 2 2 (fun _ => 1) = .error .value := by
+  refine ⟨⟨_, rfl, ?_⟩, rfl, rfl⟩
+  decide +kernel
+
+/-! ### metadata of `Resize` and `equalize_voxel_size` -/
+
+/-- `Resize` keeps the physical extent and placement (dimensions, origin); only the shape changes ... -/
+theorem resize_keeps_extent (m : ImgMeta) (t : List Nat) :
+    (resizeMeta m t).dims = m.dims ∧ (resizeMeta m t).origin = m.origin ∧ (resizeMeta m t).shape = t := ⟨rfl, rfl, rfl⟩
+
+/-- ... hence plain area resizing (mean over the destination cell, `conservative = False`) preserves the physical
+integral, for every input and target shape, ... -/
+theorem area_resize_integral (d1 d2 : Rat) (n1 n2 m1 m2 : Nat) (hn1 : 0 < n1) (hn2 : 0 < n2) (hm1 : 0 < m1) (hm2 : 0 < m2)
+    (f : Nat → Nat → Rat) :
+    d1 / m1 * (d2 / m2) * sumRange m1 (fun j1 => sumRange m2 fun j2 => areaResize2 n1 n2 m1 m2 f j1 j2)
+      = d1 / n1 * (d2 / n2) * sumRange n1 (fun i1 => sumRange n2 fun i2 => f i1 i2) := by
+  have q1 : (n1 : Rat) ≠ 0 := by positivity
+  have q2 : (n2 : Rat) ≠ 0 := by positivity
+  have q3 : (m1 : Rat) ≠ 0 := by positivity
+  have q4 : (m2 : Rat) ≠ 0 := by positivity
+  rw [← conservativeResize2_sum n1 n2 m1 m2 hn1 hn2 hm1 hm2 f]
+  have : ∀ j1, sumRange m2 (fun j2 => conservativeResize2 n1 n2 m1 m2 f j1 j2)
+      = sumRange m2 (fun j2 => areaResize2 n1 n2 m1 m2 f j1 j2) * (((n1 * n2 : Nat) : Rat) / ((m1 * m2 : Nat) : Rat)) := by
+    intro j1; rw [← sumRange_mul_right]; rfl
+  simp only [this]
+  rw [sumRange_mul_right]; push_cast; field_simp
+
+/-- ... while the conservative variant conserves the array sum and therefore multiplies the physical integral by the
+ratio of voxel counts (why the property uses the documented counterpart, the sum) -/
+theorem conservative_resize_integral (d1 d2 : Rat) (n1 n2 m1 m2 : Nat) (hn1 : 0 < n1) (hn2 : 0 < n2) (hm1 : 0 < m1) (hm2 : 0 < m2)
+    (f : Nat → Nat → Rat) :
+    d1 / m1 * (d2 / m2) * sumRange m1 (fun j1 => sumRange m2 fun j2 => conservativeResize2 n1 n2 m1 m2 f j1 j2)
+      = d1 / n1 * (d2 / n2) * sumRange n1 (fun i1 => sumRange n2 fun i2 => f i1 i2) * (((n1 * n2 : Nat) : Rat) / ((m1 * m2 : Nat) : Rat)) := by
+  have q1 : (n1 : Rat) ≠ 0 := by positivity
+  have q2 : (n2 : Rat) ≠ 0 := by positivity
+  have q3 : (m1 : Rat) ≠ 0 := by positivity
+  have q4 : (m2 : Rat) ≠ 0 := by positivity
+  rw [conservativeResize2_sum n1 n2 m1 m2 hn1 hn2 hm1 hm2 f]; push_cast; field_simp
+
+/-- `equalize_voxel_size` keeps dimensions and origin -/
+theorem equalize_keeps_extent (m : ImgMeta) (vs : Option Rat) :
+    (equalizeMeta m vs).dims = m.dims ∧ (equalizeMeta m vs).origin = m.origin := ⟨rfl, rfl⟩
+
+/-- an axis whose extent is an integer multiple `k` of the voxel size gets `k` voxels, i.e. exactly that voxel size;
+in particular with the default (smallest voxel side) the axis that attains it keeps its number of voxels -/
+theorem equalize_exact (vs : Rat) (hv : 0 < vs) (k : Nat) (hk : 0 < k) :
+    equalizeCount vs ((k : Rat) * vs) = k ∧ (k : Rat) * vs / ((equalizeCount vs ((k : Rat) * vs) : Nat) : Rat) = vs := by
+  have hkq : (k : Rat) ≠ 0 := by positivity
+  rw [equalizeCount_of_multiple vs hv k]
+  exact ⟨rfl, by field_simp⟩
+
+/-- in general the number of voxels is the integer nearest to `extent / voxel_size` -/
+theorem equalize_nearest (vs d : Rat) (hq : 0 ≤ d / vs) :
+    ((equalizeCount vs d : Nat) : Rat) ≤ d / vs + 1 / 2 ∧ d / vs - 1 / 2 < ((equalizeCount vs d : Nat) : Rat) :=
+  equalizeCount_nearest vs d hq
 
 /-! ### non-vacuity -/
 
